@@ -523,7 +523,9 @@ func TestVerifC10(t *testing.T) {
 	r.Assumption("two local watchers and one watched actor; one termination per execution; gates in A.PostStop and in W1's mailbox Enqueue(*Terminated) are the only places where operations overlap the termination (no instruction-level interleaving of tree.addWatcher/removeWatcher with freeWatchers)")
 	r.Assumption("remote watchers (RemoteTell path of freeWatchers) are not exercised")
 	var scs []vsched.Scenario
-	for pth := c10Path(0); pth < c10NumPaths; pth++ {
+	// cheap scenarios first: ExploreAll hands the unused share of the wall budget to the later ones
+	order := []c10Path{c10PSysStop, c10PKill, c10PStopChild, c10PPassivate, c10PShutdown, c10PPoison, c10PSelfStop, c10PFailStop, c10PParentStop}
+	for _, pth := range order {
 		cfg := c10Cfg{path: pth, watches: vsched.Pick(1, 2), restart: pth != c10PSysStop, w2unwatch: true, w2rewatch: r.Thorough() && pth != c10PSysStop}
 		if !r.Thorough() && (pth == c10PKill || pth == c10PStopChild) {
 			// same code path as shutdown after the lookup; quick tier keeps them smaller
@@ -535,5 +537,10 @@ func TestVerifC10(t *testing.T) {
 			Run: func(c *vsched.Chooser) vsched.Outcome { return c10Run(t, cfg, c) },
 		})
 	}
-	vsched.ExploreAll(scs)
+	// Not ExploreAll: its equal per-scenario share of the wall budget starves the first scenario when
+	// the shard processes start on a busy machine; the scenarios here are small compared with the budget,
+	// so they simply run one after the other against the global budget (cheap ones first).
+	for _, sc := range scs {
+		vsched.Explore(sc.Cfg, sc.Run)
+	}
 }
